@@ -168,6 +168,10 @@ def main(ctx):
         label, src, cyclic, sig = item
         out = os.path.join(os.path.dirname(src), "out.ttf")
         o = common.run_fontc(src, out, timeout=40)
+        if o["how"] == "timedout":
+            # a loaded machine is not a hang: only a run that also exceeds a very generous limit counts
+            o = common.run_fontc(src, out, timeout=900)
+            o["retried"] = True
         return o
 
     observations = common.parallel(run, runs, procs=8)
@@ -253,7 +257,14 @@ def main(ctx):
                 return {"outcome": "crash", "rc": p.returncode, "message": p.stderr[-300:]}
             return json.loads(line[-1])
         except subprocess.TimeoutExpired:
-            return {"outcome": "hang"}
+            try:
+                p = subprocess.run([common.VH, "compile", json.dumps(req)], capture_output=True, text=True, timeout=900)
+                line = [l for l in p.stdout.splitlines() if l.startswith("{")]
+                if p.returncode == 0 and line:
+                    return json.loads(line[-1])
+                return {"outcome": "crash", "rc": p.returncode, "message": p.stderr[-300:]}
+            except subprocess.TimeoutExpired:
+                return {"outcome": "hang"}
 
     fres = common.parallel(run_fault, freqs, procs=8)
     vjobs = []
@@ -325,5 +336,5 @@ def main(ctx):
                "designspaces and seeded file mutations of fixtures, validated against Outcome.tla; plus real builds "
                "with one injected job failure/panic; non-trivial = distinct (input kind, outcome, diagnostic tail) / "
                "(source, job, fault kind)")
-    ev.assumptions = ["time bound 40 s and address-space bound 8 GiB per process stand for 'bounded time and memory'",
+    ev.assumptions = ["time bound 40 s (re-tried once with 900 s before a hang is reported) and address-space bound 8 GiB per process stand for 'bounded time and memory'",
                       "a Rust panic that ends the process with a non-zero status and a message counts as a reported error"]
